@@ -113,6 +113,42 @@ theorem dm_extractPureBits_binarised (mw mh : Nat) (m : Nat → Nat → Bool) (r
     · obtain ⟨bm, hb, hs⟩ := blackMatrix_white img hW hH hwhite
       exact ⟨bm, hb, ext bm hs⟩
 
+/-- **the pure-barcode image path IS the matrix path** — for ANY module matrix with the three finder facts (a symbol
+    of any encoder, also a damaged one), any requested size (both renderer branches), any matrix decoder `decode`:
+    rendering, handing the BitMatrix over as an image, binarising and reading with PURE_BARCODE gives exactly what
+    `decode` gives on the module matrix itself (result or fault) whenever the image is at least 40x40 pixels or one of
+    the pixels the global method samples is white; in every case that, or the binariser's NotFound wrapped as
+    ReaderException. -/
+theorem dm_image_path_eq_matrix_path {α : Type} (mw mh : Nat) (m : Nat → Nat → Bool) (reqW reqH : Int)
+    (hm : DMFinderFacts mw mh m) (decode : Bits → Res α) :
+    ∃ img, renderDM mw mh m reqW reqH = .ok img ∧
+      img.w = dmOut mw mh reqW reqH reqW mw ∧ img.h = dmOut mw mh reqW reqH reqH mh ∧
+      (40 ≤ img.w ∧ 40 ≤ img.h ∨ WhiteSample img →
+        dmImagePath mw mh m reqW reqH decode = liftRes (decode { w := mw, h := mh, rows := matrixRows mw mh m })) ∧
+      (dmImagePath mw mh m reqW reqH decode = liftRes (decode { w := mw, h := mh, rows := matrixRows mw mh m }) ∨
+        dmImagePath mw mh m reqW reqH decode = .error (.reader .notFound)) := by
+  obtain ⟨img, himg, hany, hbig⟩ := dm_extractPureBits_binarised mw mh m reqW reqH hm
+  obtain ⟨_, himg', ew, eh, _⟩ := renderDM_shows mw mh m reqW reqH (by have := hm.cols; omega) hm.rows
+  rw [himg] at himg'; cases himg'
+  have ok_of : ∀ bm, blackMatrix img = .ok bm →
+      DM.extractPureBits bm.rdGo bm = .ok { w := mw, h := mh, rows := matrixRows mw mh m } →
+      dmImagePath mw mh m reqW reqH decode = liftRes (decode { w := mw, h := mh, rows := matrixRows mw mh m }) := by
+    intro bm hbm hex
+    unfold dmImagePath
+    rw [himg]
+    simp only [dmRead, hbm, hex]
+    cases decode { w := mw, h := mh, rows := matrixRows mw mh m } <;> rfl
+  refine ⟨img, himg, ew, eh, ?_, ?_⟩
+  · intro hc
+    obtain ⟨bm, hbm, hex⟩ := hbig hc
+    exact ok_of bm hbm hex
+  · rcases hany with hnf | ⟨bm, hbm, hex⟩
+    · right
+      unfold dmImagePath
+      rw [himg]
+      simp only [dmRead, hnf]
+    · left; exact ok_of bm hbm hex
+
 /-! ## 2. the composed image round trip -/
 
 /-- module (column `i`, row `j`) of the reference symbol (C08) for the data codewords `d` -/
